@@ -49,6 +49,9 @@ func vSeg(n int) string {
 	return string(b)
 }
 
+// vVendoredQ2: q2 lives under the module's vendor directory (mode 3).
+var vVendoredQ2 bool
+
 func vNewTyWorld(s1, s2 string) *vTyWorld {
 	w := &vTyWorld{byPath: map[string]*types.Package{}}
 	mk := func(path, name string) *types.Package {
@@ -58,7 +61,11 @@ func vNewTyWorld(s1, s2 string) *vTyWorld {
 	}
 	w.self = mk("example.com/m/self", "self")
 	w.q1 = mk("example.com/a/"+s1, s1)
-	w.q2 = mk("example.com/b/"+s2, s2)
+	if vVendoredQ2 {
+		w.q2 = mk("example.com/m/vendor/example.com/b/"+s2, s2)
+	} else {
+		w.q2 = mk("example.com/b/"+s2, s2)
+	}
 	w.q3 = mk("example.com/c/"+s1, s1)
 	named := func(p *types.Package, name string, under types.Type) *types.Named {
 		obj := types.NewTypeName(token.NoPos, p, name, nil)
@@ -380,7 +387,10 @@ func vTyNativeOK(w *vTyWorld, text string, t types.Type, target *types.Package, 
 			return false
 		}
 		if alt := target.Scope().Insert(types.NewPkgName(token.NoPos, target, name, p)); alt != nil {
-			return false
+			// already there from an earlier judgement of the same rendering context?
+			if pn, ok := alt.(*types.PkgName); !ok || pn.Imported() != p {
+				return false
+			}
 		}
 	}
 	tv, err := types.Eval(token.NewFileSet(), target, token.NoPos, text)
@@ -510,14 +520,24 @@ func (j *vTyJudge) check(text string, t types.Type) {
 
 // Verif_C11_TypeLit(depth, seg, tagLen, mode): mode 0 renders into self, 1 into
 // q1 (X and G local, L foreign), 2 into self with a tracker that has already
-// imported a third package wanting the same name as q1.
+// imported a third package wanting the same name as q1, 3 into self with q2
+// living under the module's vendor directory. Rendered through ID and through
+// %T; both texts are judged.
 func Verif_C11_TypeLit(depth, seg, tagLen, mode int) {
+	vVendoredQ2 = mode == 3
 	w := vNewTyWorld(vSeg(seg), vSeg(seg))
+	vVendoredQ2 = false
 	t := w.vBuild(depth, tagLen)
 	j := vNewJudge(w, mode)
 	text := vRenderIn(j.d, ID(t))
 	verifsym.Observe("text", text)
 	j.check(text, t)
+	// the same through %T
+	text2 := vRenderIn(j.d, Sprintf("%T", t))
+	if text2 != text {
+		verifsym.Observe("text%T", text2)
+		j.check(text2, t)
+	}
 	// the same type rendered again gives the same text (the namer memoises)
 	verifsym.Assert(vRenderIn(j.d, ID(t)) == text, "rendering the same type twice gives different text")
 	verifsym.Reach("end")
